@@ -303,6 +303,16 @@ Theorem C09_diff_link_target_blind_refuted :
 Proof. exact diff_link_target_blind. Qed.
 Print Assumptions C09_diff_link_target_blind_refuted.
 
+(* the same known finding seen from the other side: a link against a proper node with the target's header (other children) is
+   silent without -f even with -d; -f reports the children *)
+Theorem C09_diff_link_vs_node_blind_refuted :
+  cgnsdiff Cur MCur o_d [([49], linkfile 49); ([50], linkfile_node)] [([49], linkfile 49); ([50], linkfile_node)] 8 [49] [50] = [] /\
+  cgnsdiff Cur MCur (mkO true true false false true 0) [([49], linkfile 49); ([50], linkfile_node)]
+           [([49], linkfile 49); ([50], linkfile_node)] 8 [49] [50] = [DLeft [47;75;47;107;49]; DRight [47;75;47;111;116;104;101;114]] /\
+  full_view 8 [([49], linkfile 49)] [49] (linkfile 49) <> full_view 8 [([50], linkfile_node)] [50] linkfile_node.
+Proof. exact diff_link_vs_node_blind. Qed.
+Print Assumptions C09_diff_link_vs_node_blind_refuted.
+
 (* a documented limit of -t: the comparison is fabs(a-b) > tol, false for a NaN -- 2.0 against NaN is silent under -t1e-6
    (with the default tolerance 0 bytes are compared and the same pair IS reported).  Flocq's binary64. *)
 Theorem C09_diff_tol_nan_refuted :
